@@ -85,6 +85,7 @@ enum onetbb_verif_id {
     vr_market_allotment          = 100, // report: [limit, total_demand, n, (min,max,allotted,priority)*n]
     vr_serializer_update         = 101, // report: [delta, soft_limit, total_request, pending_delta]
     vp_serializer_pending        = 102,
+    vr_market_unregister         = 103, // report: [min_workers, max_workers] of a client being destroyed
     // --- pipeline ---
     vp_pipe_token_parked         = 110, // arg: distance from low_token
     vp_pipe_grow                 = 111, // arg: new size
